@@ -169,7 +169,7 @@ def run_cell(impl, via, cell, out):
                                     and via == 'polling') else []
         V = lambda kind, trig, text: out.append(_viol(impl, kind, trig, text, cell, via))   # noqa: E731
         if via == 'polling':
-            r = w.http('GET', peer.BASEQ + ('&j=7' if cell['jsonp'] else ''))
+            r = w.http('GET', peer.BASEQ + ('&j=0' if cell['jsonp'] else ''))      # 0 is the first callback index a JSONP client uses
             w.run()
             if r.exc:
                 V('exception_escaped', 'cookie=' + cell['cookie'] if cell['cookie'] != 'none' else 'open',
